@@ -29,7 +29,8 @@ def scratch():
         base = '/dev/shm' if os.path.isdir('/dev/shm') else '/tmp'
         _scratch = os.path.join(base, 'verif-%d' % os.getpid())
         os.makedirs(_scratch, exist_ok=True)
-        atexit.register(lambda: shutil.rmtree(_scratch, ignore_errors=True))
+        if not os.environ.get('VERIF_KEEP_SCRATCH'):   # debugging aid: keep traces and TLC outputs
+            atexit.register(lambda: shutil.rmtree(_scratch, ignore_errors=True))
     return _scratch
 
 
